@@ -143,7 +143,34 @@ fn main() {
     let mut r = Report::new(sites::PROPERTY, &args, sites::RULE);
     r.set("generated_sites", json!(sites::N_SITES));
     sites::run(&mut r, args.seed);
+    unicode_probe(&mut r, &args);
     std::process::exit(r.finish());
+}
+
+/// The directed `emit::format!("caf\u{e9}")` site (src/bin/unicode_probe.rs), built and run by
+/// `bin/genlane` on its own because it may be rejected at compile time. `--unicode-probe-text =TEXT`
+/// carries what it rendered; `--unicode-probe-rejected WHY` that it did not compile.
+fn unicode_probe(r: &mut Report, args: &Args) {
+    if sites::PROPERTY != "C16" {
+        return;
+    }
+    let program = "let e9 = 5; emit::format!(\"caf\\u{e9}\")";
+    if let Some(text) = args.get("unicode-probe-text") {
+        let text = text.strip_prefix('=').unwrap_or(text);
+        r.eval();
+        r.observe("texts-compared", 1);
+        r.set("unicode_escape_directed_site", json!({"program": program, "rendered": text}));
+        if text != "caf\u{e9}" {
+            r.violation(
+                "C16:gen:unicode-escape-parsed-as-hole",
+                &format!("{} rendered {:?}, the Rust literal \"caf\\u{{e9}}\" is {:?}: the braces of the unicode escape were read as a hole", program, text, "caf\u{e9}"),
+                json!({"site": "directed-unicode-escape", "program": program, "rendered": text, "seed": args.seed}),
+            );
+        }
+    } else if let Some(why) = args.get("unicode-probe-rejected") {
+        // a compile-time rejection is not a runtime verdict (the statement quantifies over literals the macros accept)
+        r.set("unicode_escape_directed_site", json!({"program": program, "rejected_at_compile_time": why}));
+    }
 }
 
 // ---------------------------------------------------------------------------
